@@ -5,6 +5,7 @@
    the mantissa loop).  The theorems say that the two coincide on EVERY byte string and EVERY value of `base`
    (legal ones: 2..62, -62..-2 and 0 = 10; all others are rejected by both). -/
 import MpirProofs.Lemmas.MpfParse
+import MpirProofs.Lemmas.MpfParseLang
 namespace Mpir.MpfParse
 open Mpir Mpir.MpfStr
 
@@ -49,5 +50,46 @@ theorem parse_value (prec : Nat) (dst : Mpf.F) (base : Int) (s : List Nat) (p : 
 
 example : recog (-16) (str " -fF.8@-10") = some ⟨true, 16, [15, 15, 8], 1, -10⟩ := by decide +kernel
 example : recog 37 (str "aA. 0 @+1a") = some ⟨false, 37, [36, 10, 0], 1, 1 * 37 + 36⟩ := by decide +kernel
+
+/-- **The recogniser is sound and complete for the inductive grammar** `Lang` (Model/MpfParse.lean: productions for
+    leading white space, sign, mantissa `Mant` with optional point and interspersed white space beginning with a digit
+    or point-digit, marker, exponent `Expo` with optional sign and longest digit run, ignored tail without marker, and
+    the zero-mantissa rule): for every base and every byte string `s0`, `recog` yields `p` if and only if the C
+    string (`s0` up to its first NUL) derives `p`. -/
+theorem recog_iff_lang (base : Int) (s0 : List Nat) (p : Parsed) :
+    recog base s0 = some p ↔ Lang base (cstr s0) p := by
+  rw [recog_eq_recogS]; exact recogS_iff base (cstr s0) p
+
+/-- **parse_iff_lang.**  The scanner model of mpf_set_str (set_str.c:207-304, 352-376) extracts `p` from `s0` if and
+    only if the grammar derives `p` from the C string; in particular the model returns 0 exactly on the strings
+    that have a derivation. -/
+theorem parse_iff_lang (base : Int) (s0 : List Nat) (p : Parsed) :
+    parse base s0 = some p ↔ Lang base (cstr s0) p := by
+  rw [parse_eq_recog]; exact recog_iff_lang base s0 p
+
+/-- acceptance: `mpf_set_str` (model) returns 0 iff the C string has a derivation in the grammar -/
+theorem set_str_accepts_iff_lang (prec : Nat) (dst : Mpf.F) (base : Int) (s0 : List Nat) :
+    (set_str prec dst base s0).1 = 0 ↔ ∃ p, Lang base (cstr s0) p := by
+  unfold set_str
+  cases h : parse base s0 with
+  | none =>
+    simp only [show ((-1 : Int) = 0) = False by decide, false_iff]
+    rintro ⟨p, hp⟩
+    rw [← parse_iff_lang, h] at hp; cases hp
+  | some p => exact ⟨fun _ => ⟨p, (parse_iff_lang base s0 p).1 h⟩, fun _ => rfl⟩
+
+-- a derivation exists (non-vacuity), and an explicit one built from the productions
+example : Lang 10 (str " -12.50e-3xyz") ⟨true, 10, [1, 2, 5, 0], 2, -3⟩ :=
+  (recog_iff_lang 10 (str " -12.50e-3xyz") _).1 (by decide +kernel)
+example : Lang 10 ([32] ++ 45 :: ([49, 46] ++ 101 :: 45 :: ([51] ++ [120]))) ⟨true, 10, [1], 0, -3⟩ :=
+  Lang.neg (by decide) (by decide) (by decide)
+    (Body.expo (m := [49, 46]) (ds := [1]) (pt := some 0) (Or.inl ⟨49, [46], rfl, by decide +kernel⟩)
+      (Mant.digit (c := 49) (by decide +kernel) (Mant.point Mant.nil)) (by decide) (by decide)
+      (by unfold NoMarker; decide +kernel) (Expo.minus (run := [51]) (tail := [120]) (by decide) (by decide +kernel) (by decide +kernel)))
+example : ¬ ∃ p, Lang 10 (str "1e5xe") p := by
+  rintro ⟨p, hp⟩
+  have := (recog_iff_lang 10 (str "1e5xe") p).2 hp
+  have hn : recog 10 (str "1e5xe") = none := by decide +kernel
+  rw [hn] at this; cases this
 
 end Mpir.MpfParse
